@@ -34,7 +34,7 @@ class ContractInfo:
         self.assumed = assumed      # text of the assumption: the contract is used at call sites but NOT verified (trusted)
         self.local = local          # a summary that replaces calls only inside contracts that list it in `uses`
         self.kind = 'function' if target else ('const' if const else 'lemma')
-        self.use_at_calls = use_at_calls if not getattr(pycls, 'step', None) else False     # a loop-step contract is never a callee summary
+        self.use_at_calls = use_at_calls if not (getattr(pycls, 'step', None) or getattr(pycls, 'tail', None)) else False     # a loop-step contract is never a callee summary
         self.bounded = bounded
         self.module_name = pycls.__module__
         self.clauses = [n for n in vars(pycls) if n.startswith('post_')]
@@ -488,6 +488,9 @@ class ConcreteFactory:
             suffixes = [str(k) for k in range(n)]
         elif has_i or has_j:
             suffixes = (['j'] if has_j else []) + (['i'] if has_i else [])
+        elif isinstance(n, int) and not isinstance(n, bool) and 0 < n <= 12 and self.rng is None:
+            # the model fixes the length only (elements that carry no unknowns of their own): that many elements
+            suffixes = [str(k) for k in range(n)]
         elif self.rng is not None:
             hi = 4 if max_len is None else min(4, max_len)
             suffixes = [str(k) for k in range(self.rng.randint(0, hi))]
